@@ -411,6 +411,24 @@ def c03(tier):
     return out.finish()
 
 
+def c17(tier):
+    out = Outcome("C17", tier, "exploration")
+    cfgs = SOLVER_CFGS_QUICK if tier == "quick" else SOLVER_CFGS_ALL
+    sts = [named(run_family(out, "fam_oo", cfgs, tier, limit_ms=10000, after_read=True, only_keys_prefix="C17"), "objects")]
+    out.coverage = fam_coverage(sts,
+        "lib/fam_oo.py: class hierarchies {single, chain of 2, chain of 3, two supertypes, diamond, nested type} x EVERY instance count "
+        "vector (0-2 per class, bounded total) x a declared variable of EVERY type x {no constraint, v != first, v == last} x {all "
+        "instances before the declaration, one more created after it}; two variables over 1-3 instances with every small set of "
+        "==/!= constraints; numeric fields set by constructor argument, init-list constant, field initialiser and constructor body, "
+        "with constraints through v.n; an object-typed field accessed through a variable; enum declarations with included enums and "
+        "pairwise (dis)equalities. Oracle: the domain reported right after read() equals exactly the instances of the type and its "
+        "subtypes that existed at the declaration; a type without instances is rejected; after solve() every variable has one value, "
+        "inside the domain, and every constraint holds for the chosen instances (field access = field of the chosen instance); fields "
+        "have the values the program wrote; satisfiable problems are not rejected. distinct_nontrivial = distinct programs.")
+    out.assumptions = ["instance identity through the ids of the official JSON (pointer values, stable within a run)"]
+    return out.finish()
+
+
 def c16(tier):
     out = Outcome("C16", tier, "exploration")
     parts = [("tokens/rel", "rel", "lexmc", ["--mode", "tokens"]), ("parse/rel", "rel", "lexmc", ["--mode", "parse"]),
@@ -475,7 +493,7 @@ def c18(tier):
 
 
 # ------------------------------------------------------------------------------------------------
-PROPS = {"C03": c03, "C04": c04, "C05": c05, "C06": c06, "C01": c01, "C02": c02, "C16": c16, "C18": c18, "C15": c15, "C13": c13, "C11": lambda tier: relmc_check("C11", tier), "C12": lambda tier: relmc_check("C12", tier)}
+PROPS = {"C17": c17, "C03": c03, "C04": c04, "C05": c05, "C06": c06, "C01": c01, "C02": c02, "C16": c16, "C18": c18, "C15": c15, "C13": c13, "C11": lambda tier: relmc_check("C11", tier), "C12": lambda tier: relmc_check("C12", tier)}
 for _p in ("C07", "C08", "C09", "C10", "C14"):
     PROPS[_p] = (lambda pid: (lambda tier: netmc_check(pid, tier)))(_p)
 
